@@ -120,6 +120,7 @@ func runC11(c *Config, r *Report) {
 	pureLookups(ic, r, "R11.10")
 	c11R11(ic, r)
 	c11R12(ic, r)
+	c11R13(ic, r)
 }
 
 func c11R2(ic *IC, r *Report) {
@@ -1104,5 +1105,121 @@ func c11R12(ic *IC, r *Report) {
 	}
 	if n < 2 {
 		r.Errorf("R11.12: %d sites starting the main function found (CompileAST and importSrc expected)", n)
+	}
+}
+
+func init() {
+	ruleText["R11.13"] = "every evaluation compiles its own source: a *Program returned by a function of the compile chain (Compile, CompilePath, compileSrc, CompileAST) is created by that call - nil, a composite literal, or the result of another function of the chain - never read from a field, a map or a variable that outlives the call"
+}
+
+// c11R13: round-6 seed. compileSrc kept the programs compiled from statements in an
+// interpreter map keyed by the source: a statement evaluated a second time ran its first
+// compilation and kept calling a function that had been redefined in between.
+func c11R13(ic *IC, r *Report) {
+	info := ic.Info
+	isProg := func(t types.Type) bool { return t != nil && isNamedPtr(t, "Program") }
+	chain := map[*types.Func]*FuncInfo{}
+	for f, fi := range ic.G.Funcs {
+		sg := f.Type().(*types.Signature)
+		if fi.Decl.Body != nil && sg.Results().Len() >= 1 && isProg(sg.Results().At(0).Type()) && sg.Recv() != nil && isNamedPtr(sg.Recv().Type(), "Interpreter") {
+			chain[f] = fi
+		}
+	}
+	if len(chain) < 4 {
+		r.Errorf("R11.13: only %d functions of the compile chain found (Compile, CompilePath, compileSrc, CompileAST expected)", len(chain))
+		return
+	}
+	var fs []*types.Func
+	for f := range chain {
+		fs = append(fs, f)
+	}
+	sort.Slice(fs, func(i, j int) bool { return fs[i].Name() < fs[j].Name() })
+	for _, f := range fs {
+		fi := chain[f]
+		sg := f.Type().(*types.Signature)
+		var created func(e ast.Expr, depth int) string
+		created = func(e ast.Expr, depth int) string {
+			e = unparen(e)
+			switch y := e.(type) {
+			case *ast.Ident:
+				if y.Name == "nil" {
+					return ""
+				}
+				obj := info.ObjectOf(y)
+				v, ok := obj.(*types.Var)
+				if !ok || v.Parent() == ic.Pk.Types.Scope() || depth > 3 {
+					return types.ExprString(e) + " outlives the call"
+				}
+				// every definition of the local
+				why, defs := "", 0
+				ast.Inspect(fi.Decl.Body, func(q ast.Node) bool {
+					as, ok := q.(*ast.AssignStmt)
+					if !ok {
+						return true
+					}
+					for i, l := range as.Lhs {
+						if id := identOf(l); id != nil && info.ObjectOf(id) == obj {
+							defs++
+							var rhs ast.Expr
+							if len(as.Rhs) == len(as.Lhs) {
+								rhs = as.Rhs[i]
+							} else if len(as.Rhs) == 1 && i == 0 {
+								rhs = as.Rhs[0]
+							}
+							if rhs == nil {
+								why = types.ExprString(y) + " is assigned at " + ic.pos(as.Pos()) + " from an expression that was not followed"
+							} else if w := created(rhs, depth+1); w != "" {
+								why = w
+							}
+						}
+					}
+					return true
+				})
+				if defs == 0 && v != sg.Results().At(0) {
+					return types.ExprString(e) + " is not defined in the function"
+				}
+				return why
+			case *ast.UnaryExpr:
+				if _, ok := unparen(y.X).(*ast.CompositeLit); ok {
+					return ""
+				}
+			case *ast.CallExpr:
+				if g, ok := calleeOf(info, y).(*types.Func); ok && chain[g] != nil {
+					return ""
+				}
+			}
+			return types.ExprString(e) + " (" + ic.pos(e.Pos()) + ") is not created by this call"
+		}
+		var bad []string
+		ast.Inspect(fi.Decl.Body, func(q ast.Node) bool {
+			if _, ok := q.(*ast.FuncLit); ok {
+				return false
+			}
+			rs, ok := q.(*ast.ReturnStmt)
+			if !ok {
+				return true
+			}
+			var e ast.Expr
+			switch {
+			case len(rs.Results) == sg.Results().Len():
+				e = rs.Results[0]
+			case len(rs.Results) == 1:
+				e = rs.Results[0] // return f(...) forwarding a tuple
+			case len(rs.Results) == 0:
+				e = ast.NewIdent(sg.Results().At(0).Name())
+				if id := fi.Decl.Type.Results.List[0].Names; len(id) > 0 {
+					e = id[0]
+				}
+			}
+			if e == nil {
+				return true
+			}
+			if w := created(e, 0); w != "" {
+				bad = append(bad, "return at "+ic.pos(rs.Pos())+": "+w)
+			}
+			return true
+		})
+		r.Check(len(bad) == 0, "R11.13", funcName(fi.Decl)+"/program-compiled-by-this-call", ic.pos(fi.Decl.Pos()), "every returned program is created by the call",
+			funcName(fi.Decl)+" can return a program that an earlier call compiled ("+strings.Join(dedupStr(bad), "; ")+"): the compiled form binds the functions, types and variables that existed then, so a statement evaluated again after a redefinition keeps calling the old function, and a statement that failed once for an undefined name can never succeed")
 	}
 }
